@@ -228,11 +228,11 @@ def run(ctx):
     docs = gen_tables(ctx)
 
     # ---- proofs
-    ok1, log1 = ctx.prove("C07/Props.v", ["C07/Proofs.vo"], expected=[
+    ok1, log1 = ctx.prove("C07/Props.v", ["C07/Proofs.vo", "C07/Tail.vo"], expected=[
         "C07_supported_iff_extractor", "C07_else_not_supported", "C07_extension_decides",
-        "C07_case_insensitive", "C07_alias_as_base"])
-    ok2, log2 = ctx.prove("C07/Inst.v", ["Gen/C07Tables.vo", "C07/Corr.vo"], expected=[
-        "C07_tables_wf", "C07_aliases_final", "C07_documented", "C07_alias_compound_consistent"])
+        "C07_case_insensitive", "C07_alias_as_base", "C07_appended_chars_extend_extension", "C07_trailing_char_unsupported"])
+    ok2, log2 = ctx.prove("C07/Inst.v", ["Gen/C07Tables.vo", "C07/Corr.vo", "C07/Tail.vo"], expected=[
+        "C07_tables_wf", "C07_aliases_final", "C07_documented", "C07_alias_compound_consistent", "C07_trailing_chars_ok"])
     if not ok2:
         # ask the model which table entry is bad (hint for the search below)
         okh, out = ctx.coq_eval("firstbad", "From S2T Require Import Lib.PyStr C07.Model Gen.C07Tables.\n"
